@@ -11,6 +11,7 @@ DEPS = ['Invocation/Model.vo', 'Invocation/Gen_Consts.vo', 'Invocation/Inst.vo']
 ST = ['Wait', 'Start', 'Cnclld', 'CnclldMan', 'Fin', 'FinMod', 'Fail']
 WAIT, START, CNC, CNCM, FIN, FINMOD, FAIL = range(7)
 FINALS = [CNC, CNCM, FIN, FINMOD, FAIL]
+PINNED_CAP = 50                         # the claim: up to 50 report parts may precede the response (Inst.pinned_recent_cap)
 COMPLETING = {CNC, CNCM, FAIL}          # a response in one of these states ends the transaction: no report need follow
 KINDS = ['activate', 'set_string', 'set_value', 'set_context_state', 'set_metric_state', 'set_component_state',
          'set_alert_state']
@@ -90,7 +91,7 @@ def gen_cons_exhaustive(rng, cap, loads):
 def gen_cons_boundary(rng, cap):
     """an own part, then exactly cap-1 / cap further parts, then the response: kept / lost"""
     cases = []
-    for extra in (cap - 2, cap - 1, cap, cap + 3):
+    for extra in sorted({1, 4, 5, 9, 10, 19, 29, 39, 45, cap - 2, cap - 1, cap, cap + 3}):      # k foreign parts up to the bound
         for shape, rst, sts in (('direct', FIN, [FIN]), ('direct', FAIL, [FAIL]), ('queued', WAIT, [WAIT, START, FINMOD])):
             tag = itertools.count()
             flat = [('part', 1, sts[0], next(tag))]
@@ -418,6 +419,20 @@ def oracle_prov(tr, qcap):
         if any(p[2] or p[3] or p[5] for p in mine[:-1]):
             return 'progress-part', f'transaction {rid}: Wait/Start part with error or target {mine}'
         # end to end: the result handle of the consumer that called
+        if rst not in COMPLETING:
+            pos = max(j for j, p in enumerate(parts) if p[0] == rid)          # the final report is the n-th part sent
+            cum, e_final = 0, None
+            for e_i, n_e in enumerate(tr['pcounts']):
+                cum += n_e
+                if cum > pos:
+                    e_final = e_i
+                    break
+            seen = dict(tr.get('done_at', []))
+            if i in seen and e_final is not None and seen[i] < e_final:
+                f0 = fut.get(i)
+                return 'result-before-final-report', (f'transaction {rid}: the result handle was complete after step {seen[i]}, the final '
+                                                      f'report was sent in step {e_final}; it carries {ST[f0[3]] if f0 and f0[2] == "done" else "?"} '
+                                                      f'and parts {f0[5] if f0 and f0[2] == "done" else "?"} - not of this invocation')
         f = fut.get(i)
         if not f or f[2] != 'done':
             return 'consumer-result', f'transaction {rid}: result handle {f}'
@@ -529,13 +544,34 @@ def run(ctx):
     rng = ctx.rng
 
     # ---------------------------------------------------------------- consumer
-    ccases = gen_cons_exhaustive(rng, cap, loads=(0, 2, cap - 4) if not ctx.thorough else (0, 1, 3, 7, cap - 4, cap - 1))
-    ccases += gen_cons_boundary(rng, cap)
+    ccases = gen_cons_exhaustive(rng, PINNED_CAP, loads=(0, 2, PINNED_CAP - 4) if not ctx.thorough else (0, 1, 3, 7, PINNED_CAP - 4, PINNED_CAP - 1))
+    ccases += gen_cons_boundary(rng, PINNED_CAP)
     ccases += [gen_cons_random(rng, 4) for _ in range(ctx.n(400, 4000))]
     ccases += [gen_cons_malformed(rng) for _ in range(ctx.n(250, 2500))]
     # ---------------------------------------------------------------- provider
     classes = ['seq'] * ctx.n(60, 500) + ['interleaved'] * ctx.n(60, 600) + ['burst'] * ctx.n(5, 40)
     pcases = [gen_prov_case(rng, c, qcap) for c in classes]
+    # device reboots: ids start again while the consumers have seen the old transactions 1..n (their own and each other's);
+    # after restart() the same ids are used by new invocations with other final states, one of them held back at the gate
+    nrb = ctx.n(2, 6)
+    pre, classes_pre = [], []
+    for k in range(nrb):
+        first = FIN if k % 2 == 0 else FAIL
+        second = FINMOD if k % 2 == 0 else CNC
+        if k == 0:
+            pre.append([x for j in range(4) for x in (['req', (j + 1) % 2, rng.randrange(7), True, 'queued', ['ret', first], 0], ['finish'])])
+            classes_pre.append('before-reboot')
+        pre.append('reboot')
+        kind = rng.randrange(7)
+        pre.append([['req', 0, kind, True, 'queued', ['ret', second], 1],
+                    ['req', 1, rng.randrange(7), True, 'direct', ['ret', second], 1],
+                    ['req', 1, (kind + 1) % 7, True, 'queued', ['ret', second], 2],
+                    ['finish'], ['finish'],
+                    ['req', 0, rng.randrange(7), True, 'direct', ['ret', first if first != FIN else FINMOD], 3],
+                    ['req', 1, rng.randrange(7), True, 'queued', 'raise', 3], ['finish']])
+        classes_pre.append('after-reboot')
+    pcases = pre + pcases
+    classes = classes_pre + classes
     conc = {'rounds': [gen_conc_round(rng, rng.randint(3, 5), rng.randint(4, 7)) for _ in range(ctx.n(3, 14))]}
 
     scen = gen_sched_scenarios(rng, ctx.thorough)
@@ -553,7 +589,7 @@ def run(ctx):
     for c, ob in zip(ccases, impl['cons']):
         key = f'{c["class"]}:{c["shape"]}'
         hist[key] = hist.get(key, 0) + 1
-        bad = oracle_cons(c, ob, cap)
+        bad = oracle_cons(c, ob, PINNED_CAP)
         if bad:
             clause, why = bad
             ctx.fail(f'consumer stream: {why}', {'stream': 'cons', 'clause': clause},
@@ -589,7 +625,7 @@ def run(ctx):
             lin = linearise(r['order'])
             shist['accesses_without_lock'] += len(r['unlocked'])
             shist['report_section_before_response'] += bool(lin and lin[0][0] == 'rep')
-            bad = oracle_cons({'events': lin, 'txs': sc['txs']}, r['obs'], cap)
+            bad = oracle_cons({'events': lin, 'txs': sc['txs']}, r['obs'], PINNED_CAP)
             if bad:
                 clause, why = bad
                 ctx.fail(f'schedule stream ({sc["shape"]}): {why}; schedule {r["choices"]}: {" ".join(r["trace"])[:600]}',
@@ -618,10 +654,12 @@ def run(ctx):
     # provider: oracle + correspondence
     traces = impl['prov']['traces']
     qcap_impl = impl['prov']['queue_cap']
-    if len(traces) != len(pcases):
+    if len(traces) != len([c for c in pcases if c != 'reboot']):
         ctx.broken('correspondence', 'prov', f'the run stopped after {len(traces)} of {len(pcases)} cases: '
                                              f'{traces[-1]["aborted"] if traces else "?"}')
-    phist = {'requests': 0, 'direct': 0, 'queued': 0, 'unknown': 0, 'raise': 0, 'returns_fail': 0, 'real_handler': 0,
+    phist = {'reboots_with_restart': len(impl['prov'].get('reboots', [])),
+             'restarts_with_new_manager': sum(c['new_manager'] for rb in impl['prov'].get('reboots', []) for c in rb['consumers']),
+             'requests': 0, 'direct': 0, 'queued': 0, 'unknown': 0, 'raise': 0, 'returns_fail': 0, 'real_handler': 0,
              'faults_queue_full': 0, 'finish_ops': 0}
     for k in KINDS:
         phist['kind_' + k] = 0
